@@ -227,6 +227,8 @@ def _gen_step(rnd, sh, src, shadows):
                            1 if h[2] else 0]}
             sels.append({'d': d, 's': s})
         st['args'] = {'sels': sels, 'newdim': 'POINTS'}
+        if rnd.random() < 0.3:      # the short method name f.slice(...)
+            st['args']['alias'] = True
         return st
     if act == 'interpsigma':
         k = rnd.randint(1, 3)
